@@ -5,8 +5,8 @@ from core import Case, canon, hx, REPO
 import c01
 
 PROP = "C10"
-LEAN_MODULES = ["DrxProps.C10"]
-FAMILIES = ["riff"]
+LEAN_MODULES = ["DrxProps.C10", "DrxProps.C10Cast"]
+FAMILIES = ["riff", "cast"]
 RULE = ("for each public decoder: real files from the repo's fixtures (<= 64 KiB), mutated copies with every 1/2/4-byte field at the "
         "leading offsets set to 0, 1, -1, max, min and self-referential (len) values, truncations at many offsets, random byte strings, and "
         "generated containers/records; each call runs in a worker under an interval-timer alarm (hang => 'timeout') and an address-space "
@@ -373,6 +373,26 @@ def scaling_cases():
     return out
 
 
+# decoders with a Lean counting twin: (driver line builder, [(module, function)] whose loops' rounds are summed on the real code)
+TWINS = {
+    "riff": (lambda data, aux: f"riff steps {aux['order']} 0 {hx(data)}" if aux.get("order") in ("<", ">") else None,
+             [("drxtract.riff.riff", "parse_riff")]),
+    "cast": (lambda data, aux: f"cast steps {hx(data)}", [("drxtract.cast.cast", "parse_basic_cast_data")]),
+}
+_LOOPS = {}
+
+
+def loop_first_lines(modname, func):
+    """(file, line) of the first body line of every for/while loop of a function: one hit per round that starts"""
+    key = (modname, func)
+    if key not in _LOOPS:
+        import ast, importlib
+        mod = importlib.import_module(modname)
+        fn = next(n for n in ast.walk(ast.parse(open(mod.__file__).read())) if isinstance(n, ast.FunctionDef) and n.name == func)
+        _LOOPS[key] = [(mod.__file__, l.body[0].lineno) for l in ast.walk(fn) if isinstance(l, (ast.For, ast.While))]
+    return _LOOPS[key]
+
+
 def cases(rng, tier):
     per = dict(quick=90, thorough=1500, search=600)[tier]
     S = seeds()
@@ -381,9 +401,11 @@ def cases(rng, tier):
         data = data[:65536]
         lines = [f"#c10 run {name}"]
         spec = dict(decoder=name, aux=aux, hex=hx(data), kind=kind, sha=hashlib.sha1(data).hexdigest()[:12], n=len(data))
-        if name == "riff" and aux.get("order") in "<>":
-            lines = [f"riff steps {aux['order']} 0 {hx(data)}"]
-        return Case(kind=f"{name}:{kind}", spec=spec, lines=lines, expect=[None])
+        if name in TWINS:
+            tl = TWINS[name][0](data, aux)
+            if tl:
+                lines = [tl] + lines
+        return Case(kind=f"{name}:{kind}", spec=spec, lines=lines, expect=[None] * len(lines))
     for name, data, aux, kind in small_field_grid() + snd_two_command_grid() + layout_pair_grid():
         out.append(mk(name, data, aux, kind))
     for name in DECODERS:
@@ -500,33 +522,28 @@ def impl(case):
                            lines=m1["lines"], lines2=m2["lines"], peak=m2["peak"], secs=m2["secs"]))]
     m = measure(name, data, aux)
     case_out = canon(m)
-    if case["lines"][0].startswith("riff steps"):
-        key = _riff_iterations()
-        it = _BYLINE.get(key, 0) if key else None
-        # the loop-iteration count of the real walker (observable whether or not the walk ends in an error)
-        steps = str(it) if (it is not None and m["outcome"] in ("ok", "error")) else None
-        return [steps]
+    if len(case["lines"]) == 2:
+        rounds = 0
+        for modname, func in TWINS[name][1]:
+            for key in loop_first_lines(modname, func):
+                rounds += _BYLINE.get(key, 0)
+        # the loop-round count of the real code (observable whether or not the call ends in an ordinary error)
+        steps = str(rounds) if m["outcome"] in ("ok", "error") else None
+        return [steps, case_out]
     return [case_out]
-
-
-def _measure_of(case, io):
-    if case["lines"][0].startswith("riff steps"):
-        # re-measure is avoided: the bound for the container walker is checked through its iteration count
-        return None
-    return json.loads(io[0])
 
 
 def oracle(case, io):
     sp = case["spec"]
     n = sp["n"]
-    if case["lines"][0].startswith("riff steps"):
-        if io[0] is None:
-            return "container walk did not finish (hang or blow-up)"
+    if len(case["lines"]) == 2 and case["lines"][0].startswith("riff steps") and io[0] is not None:
         it = int(io[0])
         if it * 8 > n + 8:
             return f"container walk made {it} iterations on {n} bytes (each iteration must consume at least 8 bytes)"
-        return None
-    m = json.loads(io[0])
+    if len(case["lines"]) == 2 and case["lines"][0].startswith("cast steps") and io[0] is not None:
+        if 4 * int(io[0]) > 3 * n + 8:
+            return f"cast record loops made {io[0]} rounds on {n} bytes (proved bound for the model: 4*rounds <= 3*len + 8)"
+    m = json.loads(io[-1])
     if sp.get("kind") == "scaling":
         if m["outcome"] not in ("ok", "error"):
             return f"scaling family {sp['family']}: outcome {m['outcome']}"
@@ -547,7 +564,7 @@ def oracle(case, io):
 
 
 def nontrivial(case, io):
-    return io[0] is not None and '"timeout"' not in io[0] and '"memory"' not in io[0]
+    return io[-1] is not None and '"timeout"' not in io[-1] and '"memory"' not in io[-1]
 
 
 def _m_f37(case, f, p):
@@ -556,7 +573,7 @@ def _m_f37(case, f, p):
     if sp.get("kind") != "scaling" or sp.get("family") not in ("lscr_loops", "lscr_ifs"):
         return False
     try:
-        m = json.loads(f.got)[0] if f.got.startswith("[") else json.loads(f.got)
+        m = json.loads(f.got)[-1] if f.got.startswith("[") else json.loads(f.got)
         m = json.loads(m) if isinstance(m, str) else m
     except Exception:
         return False
